@@ -24,6 +24,7 @@ func checkC11(p *core.Prog, r *core.Report) {
 	c11R6(p, r)
 	c11R7(p, r)
 	c11R8(p, r)
+	c11R9(p, r)
 }
 
 func c11R1(p *core.Prog, r *core.Report) {
@@ -415,8 +416,8 @@ func c11R5(p *core.Prog, r *core.Report) {
 		fn  string
 		min int
 	}{
-		{"server.(*AofChannel).HandleLock", 2},
-		{"server.(*ReplicationAckDB).ProcessLeaderPushLock", 2},
+		{"server.(*AofChannel).HandleLock", 1},
+		{"server.(*ReplicationAckDB).ProcessLeaderPushLock", 1},
 		{"server.(*ReplicationAckDB).ProcessLeaderPushUnLock", 1},
 		{"server.(*ReplicationAckDB).ProcessLeaderAcked", 1},
 		{"server.(*ReplicationAckDB).ProcessLeaderAofed", 1},
@@ -427,16 +428,29 @@ func c11R5(p *core.Prog, r *core.Report) {
 		if fn == nil {
 			continue
 		}
-		n := 0
-		for _, b := range fn.Blocks {
-			for _, ins := range b.Instrs {
-				if core.StaticCallee(ins) == doAck {
-					if v, ok := constArg(ins, 2); ok && v == 0 {
+		// a hand-over is a DoAckLock(.., false) call, here or in a helper that did not
+		// exist when the sites were confirmed (looked through)
+		var nacks func(f *ssa.Function, depth int) int
+		nacks = func(f *ssa.Function, depth int) int {
+			n := 0
+			for _, b := range f.Blocks {
+				for _, ins := range b.Instrs {
+					c := core.StaticCallee(ins)
+					if c == nil {
+						continue
+					}
+					if c == doAck {
+						if v, ok := constArg(ins, 2); ok && v == 0 {
+							n++
+						}
+					} else if depth < 3 && p.IsNewFunc(c) && nacks(c, depth+1) > 0 {
 						n++
 					}
 				}
 			}
+			return n
 		}
+		n := nacks(fn, 0)
 		key := spec.fn + ": DoAckLock(false) sites"
 		if n >= spec.min {
 			r.Hold(rule, key, p.Pos(fn.Pos()), fmt.Sprintf("%d failure hand-overs", n))
@@ -681,5 +695,57 @@ func c11R8(p *core.Prog, r *core.Report) {
 	}
 	if n == 0 {
 		r.Fail("C11/R8: the ack-pending path of wakeUpWaitLock was not found")
+	}
+}
+
+// c11R9: a pending ack request handed to the ack table is either tracked or
+// failed on every path; a silent return leaves the client waiting for an
+// acknowledgement nobody counts.
+func c11R9(p *core.Prog, r *core.Report) {
+	const rule = "C11/R9"
+	r.Rule(rule, "ReplicationAckDB.ProcessLeaderPushLock: every return with a pending ack request either registered it in the ack table or handed it to DoAckLock(false)", 2)
+	fn := mustFunc(p, r, "server.(*ReplicationAckDB).ProcessLeaderPushLock")
+	doAck := p.Func("server.(*LockDB).DoAckLock")
+	if fn == nil || doAck == nil {
+		return
+	}
+	ex := core.NewExplorer(p, core.Hooks{
+		Track: func(x *core.X, a core.Atom) bool {
+			s := core.Plain(a.String())
+			return strings.HasSuffix(s, ".lock == nil") || strings.HasSuffix(s, ".lock != nil")
+		},
+		Instr: func(x *core.X) {
+			if c := core.StaticCallee(x.Ins); c == doAck {
+				if v, ok := constArg(x.Ins, 2); ok && v == 0 {
+					x.Set("failed", "1")
+				}
+			}
+			if mu, ok := x.Ins.(*ssa.MapUpdate); ok {
+				if strings.Contains(core.Plain(x.Canon(mu.Map).S), ".aofLocks") {
+					x.Set("tracked", "1")
+				}
+			}
+		},
+		Exit: func(x *core.X, rets []core.Expr) {
+			for h := range x.St.Hist {
+				if strings.HasSuffix(h, ".lock == nil") {
+					return // nothing pending
+				}
+			}
+			what := "tracked"
+			switch {
+			case x.Get("tracked") == "1":
+			case x.Get("failed") == "1":
+				what = "failed"
+			default:
+				r.Violate(rule, "server.(*ReplicationAckDB).ProcessLeaderPushLock: return without tracking or failing", x.Pos(), "a pending ack request is dropped: it is neither registered in the ack table nor handed to DoAckLock(false), so its client waits for an acknowledgement nobody counts", x.St.Trace)
+				return
+			}
+			r.Hold(rule, "server.(*ReplicationAckDB).ProcessLeaderPushLock: return "+what, x.Pos(), "request "+what)
+		},
+	})
+	ex.Run(fn, nil)
+	if ex.Imprecise != "" {
+		r.Fail("C11/R9: %s", ex.Imprecise)
 	}
 }
